@@ -167,6 +167,9 @@ class SpecMixin:
             k, p, v = _map_entries(st, m)[idx]
             yield st, (p if name == "map_has" else v)
             return
+        if name == "now":
+            yield st, z3.Real("$now")
+            return
         if name == "ghost":
             yield st, TupleV(list(st.ghost.get(args[0].s, ())))
             return
@@ -286,7 +289,18 @@ class SpecMixin:
 
     def havoc_modifies(self, st, c, env, maker):
         """fresh values for every location in c.modifies (paths like 'self.state')"""
+        paths = []
         for path in c.modifies:
+            if path.endswith(".*"):
+                sh = c.shapes.get(path.split(".")[0])
+                for p in path.split(".")[1:-1]:
+                    sh = getattr(sh, "fields", {}).get(p) if sh is not None else None
+                if sh is None:
+                    raise SpecError(f"modifies {path}: no shape to enumerate the fields from")
+                paths.extend(path[:-1] + fname for fname in sh.fields)
+            else:
+                paths.append(path)
+        for path in paths:
             parts = path.split(".")
             base = env.get(parts[0])
             cur = base
